@@ -39,17 +39,24 @@ Apply(C, s, ev) ==
 (* ill-formed ones.                                                        *)
 (***************************************************************************)
 TargetSec(C, ev) == IF ev.op = "rebalance" THEN ev.child ELSE ev.node
-ExpectRaise(C, s, ev, post) ==
+\* a zero return base that is zero by construction (never funded, nothing booked) - as
+\* opposed to a previous value and flows that cancel exactly, which the code's floats
+\* need not see as zero (then a raise is allowed, not required)
+ZeroBaseHard(C, z, n) == ZeroBase(C, z, n) /\ IsZero(z.pval[n]) /\ IsZero(z.flow[n])
+RaiseCases(C, s, ev, post, ZB(_, _)) ==
   \/ ev.op \in {"allocate", "rebalance"} /\ IsSec(C, TargetSec(C, ev)) /\ ~IsZero(ev.a)
        /\ s.t > 0 /\ PriceUnusable(C, s, TargetSec(C, ev))
   \/ ev.op = "update" /\ ev.date # s.t /\ OpenOnMissing(C, s, ev.date)
   \/ ev.op = "transact" /\ IsSec(C, ev.node) /\ ~IsNaN(ev.b) /\ ~C.bidoffer /\ ~IsZero(ev.a)
-  \/ post.fresh /\ post.t > 0 /\ \E n \in Nodes(C) : IsStrat(C, n) /\ ZeroBase(C, post, n)
+  \/ post.fresh /\ post.t > 0 /\ \E n \in Nodes(C) : IsStrat(C, n) /\ ZB(post, n)
   \* closing a sub-strategy flattens it and reads its value: a refresh in the middle
   \/ /\ ev.op \in {"close", "rebalance"} /\ IsStrat(C, ev.child) /\ Len(C.kids[ev.child]) > 0
      /\ (ev.op = "close" \/ IsZero(ev.a)) /\ ~C.fi[ev.child] /\ s.t > 0
      /\ LET mid == CloseMid(C, RT(s, ev.trades), ev.child).st
-        IN  \E n \in Nodes(C) : IsStrat(C, n) /\ ZeroBase(C, mid, n)
+        IN  \E n \in Nodes(C) : IsStrat(C, n) /\ ZB(mid, n)
+\* the operation must raise / may raise
+ExpectRaise(C, s, ev, post) == RaiseCases(C, s, ev, post, LAMBDA z, n : ZeroBaseHard(C, z, n))
+MayRaise(C, s, ev, post) == RaiseCases(C, s, ev, post, LAMBDA z, n : ZeroBase(C, z, n))
 
 (***************************************************************************)
 (* Known findings: signatures over the abstract input of the event.        *)
@@ -367,7 +374,7 @@ Next ==
              kf == KnownFinding(C, st, ev, settled)
          IN  IF ev.exc # "none"
              THEN \* the trace ends at a raise: it must be an expected one
-                  /\ IF ExpectRaise(C, st, ev, r.st)
+                  /\ IF MayRaise(C, st, ev, r.st)
                      THEN Verdict(tr.tid, "OK", l, {}, "none")
                      ELSE LET kr == IF kf # "none" THEN kf ELSE RaiseKF(C, st, ev)
                           IN  Verdict(tr.tid, IF kr = "none" THEN "FAIL" ELSE "KNOWN", l,
